@@ -773,16 +773,22 @@ def run_one(case):
     cx = Ctx(c)
     mode = c['mode']
     sample = None
-    if mode == 'single':
-        sample = run_single(cx)
-    elif mode == 'roll':
-        run_roll(cx)
-    elif mode == 'pair':
-        run_pair(cx)
-    elif mode == 'multi':
-        sample = run_multi(cx)
-    else:
-        raise AssertionError(mode)
+    try:
+        if mode == 'single':
+            sample = run_single(cx)
+        elif mode == 'roll':
+            run_roll(cx)
+        elif mode == 'pair':
+            run_pair(cx)
+        elif mode == 'multi':
+            sample = run_multi(cx)
+        else:
+            raise AssertionError(mode)
+    except (IndexError, SystemError) as ex:
+        if not cx.bchk:
+            raise
+        # NUMBA_BOUNDSCHECK=1: an out-of-range index inside a compiled kernel (SystemError when raised in a parallel region)
+        cx.prob('oob-boundscheck', f'{mode}: {type(ex).__name__}: {ex}')
     keep = (mode == 'single' and c['sweep'].startswith('axis0') and c['shape'] in ([3, 4, 5], [8, 8, 8]) and c['offk'] == 1) or \
            (mode == 'multi' and c['nth'] == 2 and c['npart'] == 2 and c['shape'] == [8, 2, 3])
     r = dict(problems=list(cx.problems.values()), evals=cx.extra['calls'], nt=sorted(cx.nt), extra=cx.extra,
